@@ -6,41 +6,47 @@ EXTENDS Naturals, Sequences, FiniteSets, TLC, Json
 
 CONSTANTS Nodes, Topics, L, Kinds, LinkedAtStart, MaxRef, MaxFault, MaxQuiet
 
-VARIABLES subs, relays, link, faults, quiets, lastq, hist, n
-vars == <<subs, relays, link, faults, quiets, lastq, hist, n>>
+VARIABLES subs, relays, link, faults, quiets, lastq, hist, n,
+          stale     \* stale[x][t]: node x holds an already cancelled Subscription of t (Cancel can be called again)
+vars == <<subs, relays, link, faults, quiets, lastq, hist, n, stale>>
 
 Pairs == {pr \in SUBSET Nodes : Cardinality(pr) = 2}
 
 Init == /\ subs = [x \in Nodes |-> [t \in Topics |-> 0]] /\ relays = [x \in Nodes |-> [t \in Topics |-> 0]]
         /\ link = IF LinkedAtStart THEN Pairs ELSE {}
         /\ faults = 0 /\ quiets = 0 /\ lastq = FALSE /\ hist = <<>> /\ n = 0
+        /\ stale = [x \in Nodes |-> [t \in Topics |-> FALSE]]
 
 K(k) == k \in Kinds /\ n < L
 Add(a) == hist' = Append(hist, a) /\ n' = n + 1 /\ lastq' = FALSE
 
 Subscribe(x, t) == /\ K("subscribe") /\ subs[x][t] < MaxRef /\ Add([a |-> "subscribe", n |-> x, t |-> t])
-                   /\ subs' = [subs EXCEPT ![x][t] = @ + 1] /\ UNCHANGED <<relays, link, faults, quiets>>
+                   /\ subs' = [subs EXCEPT ![x][t] = @ + 1] /\ UNCHANGED <<stale, relays, link, faults, quiets>>
 Cancel(x, t)    == /\ K("cancel") /\ subs[x][t] > 0 /\ Add([a |-> "cancel", n |-> x, t |-> t])
-                   /\ subs' = [subs EXCEPT ![x][t] = @ - 1] /\ UNCHANGED <<relays, link, faults, quiets>>
+                   /\ subs' = [subs EXCEPT ![x][t] = @ - 1] /\ stale' = [stale EXCEPT ![x][t] = TRUE]
+                   /\ UNCHANGED <<relays, link, faults, quiets>>
+\* Subscription.Cancel called a second time on the handle cancelled last
+CancelAgain(x, t) == /\ K("cancelAgain") /\ stale[x][t] /\ Add([a |-> "cancelAgain", n |-> x, t |-> t])
+                   /\ UNCHANGED <<stale, subs, relays, link, faults, quiets>>
 Relay(x, t)     == /\ K("relay") /\ relays[x][t] < MaxRef /\ Add([a |-> "relay", n |-> x, t |-> t])
-                   /\ relays' = [relays EXCEPT ![x][t] = @ + 1] /\ UNCHANGED <<subs, link, faults, quiets>>
+                   /\ relays' = [relays EXCEPT ![x][t] = @ + 1] /\ UNCHANGED <<stale, subs, link, faults, quiets>>
 Unrelay(x, t)   == /\ K("unrelay") /\ relays[x][t] > 0 /\ Add([a |-> "unrelay", n |-> x, t |-> t])
-                   /\ relays' = [relays EXCEPT ![x][t] = @ - 1] /\ UNCHANGED <<subs, link, faults, quiets>>
+                   /\ relays' = [relays EXCEPT ![x][t] = @ - 1] /\ UNCHANGED <<stale, subs, link, faults, quiets>>
 Link(x, y)      == /\ K("link") /\ x # y /\ {x, y} \notin link /\ Add([a |-> "link", n |-> x, m |-> y])
-                   /\ link' = link \cup {{x, y}} /\ UNCHANGED <<subs, relays, faults, quiets>>
+                   /\ link' = link \cup {{x, y}} /\ UNCHANGED <<stale, subs, relays, faults, quiets>>
 Unlink(x, y)    == /\ K("unlink") /\ x # y /\ {x, y} \in link /\ faults < MaxFault /\ faults' = faults + 1
                    /\ Add([a |-> "unlink", n |-> x, m |-> y])
-                   /\ link' = link \ {{x, y}} /\ UNCHANGED <<subs, relays, quiets>>
+                   /\ link' = link \ {{x, y}} /\ UNCHANGED <<stale, subs, relays, quiets>>
 \* reset ONE stream of the pair, seen from x: dir "out" = the stream x opened to y; side = whose stream object is reset
 Rst(x, y, dir, side) ==
                    /\ K("rst") /\ x # y /\ {x, y} \in link /\ faults < MaxFault /\ faults' = faults + 1
                    /\ Add([a |-> "rst", n |-> x, m |-> y, dir |-> dir, side |-> side])
-                   /\ UNCHANGED <<subs, relays, link, quiets>>
+                   /\ UNCHANGED <<stale, subs, relays, link, quiets>>
 Quiet           == /\ K("quiet") /\ ~lastq /\ n > 0 /\ quiets < MaxQuiet /\ quiets' = quiets + 1
                    /\ hist' = Append(hist, [a |-> "quiet"]) /\ n' = n + 1 /\ lastq' = TRUE
-                   /\ UNCHANGED <<subs, relays, link, faults>>
+                   /\ UNCHANGED <<stale, subs, relays, link, faults>>
 
-Next == \/ \E x \in Nodes, t \in Topics : Subscribe(x, t) \/ Cancel(x, t) \/ Relay(x, t) \/ Unrelay(x, t)
+Next == \/ \E x \in Nodes, t \in Topics : Subscribe(x, t) \/ Cancel(x, t) \/ CancelAgain(x, t) \/ Relay(x, t) \/ Unrelay(x, t)
         \/ \E x, y \in Nodes : Link(x, y) \/ Unlink(x, y)
         \/ \E x, y \in Nodes, dir \in {"out", "in"}, side \in {"local", "remote"} : Rst(x, y, dir, side)
         \/ Quiet
